@@ -67,6 +67,21 @@ def history(rng):
             steps.append(("snip", "try { print(%s); } catch e { print(type(e)); print(e.context); }\n" % name))
             defined.append(name)
             failing = True
+        elif c < 63 and r.chance(60):
+            # a closure that captured a local of a frame / block / fiber killed by the uncaught error, used by later snippets
+            fail = r.choice(["throw \"x\";", "nil + 1;", "[].pop();", "undefined_thing;"])
+            shape = r.below(4)
+            if shape == 0:
+                body = "fn mk%d() { var pad = 0; var loc = [%d]; cap%d = [|| loc, |v| { loc = v; return loc; }]; %s }\nmk%d();" % (k, k, k, fail, k)
+            elif shape == 1:
+                body = "{ var loc = [%d]; var other = \"o\"; cap%d = [|| [loc, other], |v| { loc = v; return loc; }]; %s }" % (k, k, fail)
+            elif shape == 2:
+                body = "var fbc%d = Fiber.new(|| { var loc = [%d]; cap%d = [|| loc, |v| { loc = v; return loc; }]; %s });\nfbc%d.call();" % (k, k, k, fail, k)
+            else:
+                body = "fn inner%d(a) { var loc = [a, %d]; cap%d = [|| loc, |v| { loc = v; return loc; }]; %s }\nfn outer%d() { var keep = \"k\"; return inner%d(keep); }\nouter%d();" % (k, k, k, fail, k, k, k)
+            steps.append(("snip", "var cap%d = nil;\n%s\nprint(\"not reached\");\n" % (k, body)))
+            steps.append(("snip", "var junk%d = []; for i in 0..20 { junk%d.push([i, \"j\"]); }\nprint(cap%d[0]());\nprint(cap%d[1](\"w\"));\nprint(cap%d[0]());\n" % (k, k, k, k, k)))
+            failing = True
         elif c < 64:
             steps.append(("snip", "fn a%d() { return b%d() + 1; }\nfn b%d() { %s }\nprint(a%d());\n" % (
                 k, k, k, r.choice(["throw \"deep\";", "return nil + 1;", "return [].pop();"]), k)))
